@@ -311,7 +311,7 @@ class Impl:
             vmf = self._map(op[1])
             if vmf is not None:
                 try:
-                    V.Solid(vmf, visgroup_ids=5)
+                    V.Solid(vmf, op[2], [], 5)     # visgroup_ids=5: the converter raises
                 except TypeError:
                     pass
         else:
